@@ -692,6 +692,7 @@ def build_node(cfg, nid, members, vfs_obj=None, now=T0, kills=0, extra=None):
     seams.CLOCK[0] = now
     seams.CLOCK_DRIFT[0] = 0.0
     seams.RAND[0] = 0.0      # (a previous closing run may have left another answer behind)
+    seams.NONCE[0] = kills << 20    # what a real random source gives: another value in every incarnation of the process
     vfs.activate(b.vfs)
     b.vfs.begin_step()
     CUR[0] = b
